@@ -52,6 +52,47 @@ class Ctx:
                 "tree_hash": s["tree_hash"]}
 
 
+def thorough_extras(ctx, rep, pid):
+    """Thorough tier: the mutation self-test of this property (evidence only:
+    it never changes the exit code, a patch may legitimately stop applying on
+    an edited tree) and the E1<->E2 cross-check of the reachable sets."""
+    from . import selftest
+    ms = [m for m in selftest.load() if m["property"] == pid]
+    if ms:
+        from concurrent.futures import ThreadPoolExecutor
+        with ThreadPoolExecutor(4) as ex:
+            res = list(ex.map(selftest.run_one, ms))
+        app = [r for r in res if r["outcome"] != "not-applicable"]
+        rep.extra_cov["selftest"] = {
+            "mutants_applied": sum(1 for r in app if not r["equivalent"]),
+            "mutants_detected": sum(1 for r in app if r["outcome"] == "detected"),
+            "equivalent_edits_applied": sum(1 for r in app if r["equivalent"]),
+            "equivalent_edits_silent": sum(1 for r in app if r["outcome"] == "silent"),
+            "results": [{k: r.get(k) for k in ("id", "what", "outcome", "wall_s")} for r in res],
+        }
+        for r in res:
+            print("  selftest %-5s %-12s %s" % (r["id"], r["outcome"], r["what"][:80]))
+    if pid in ("C02", "C06", "C19"):
+        try:
+            from .props.C19 import graph, entry_mangled
+            from .core import load_table
+            g = graph(ctx)
+            tab = load_table("c19.json")
+            ents = [e for e in entry_mangled(ctx, tab) if g.resolve(e) in g.fns]
+            r2 = g.reach(ents)
+            r1 = set(ctx.reach("encode")) | set(ctx.reach("decode"))
+            m1 = {ctx.F.fns[k].m for k in r1 if k in ctx.F.fns and ctx.F.fns[k].m}
+            in_ir = {m for m in m1 if g.resolve(m) in g.fns}
+            missing = sorted(m for m in in_ir if g.resolve(m) not in r2)
+            rep.extra_cov["e1_e2_crosscheck"] = {
+                "e1_reachable_with_ir_body": len(in_ir), "of_which_missing_from_e2_reach": len(missing),
+                "sample_missing": missing[:10],
+                "note": "every function E1 finds reachable (and that has an IR body) should be in E2's "
+                        "coarser reach set"}
+        except Exception as e:      # evidence only
+            rep.extra_cov["e1_e2_crosscheck"] = {"error": str(e)}
+
+
 def main():
     ap = argparse.ArgumentParser()
     ap.add_argument("pid")
@@ -68,6 +109,8 @@ def main():
         ctx = Ctx(a.tier)
         mod.run(ctx, rep)
         rep.stats.update(ctx.stats())
+        if a.tier == "thorough" and not os.environ.get("VERIF_REPO"):
+            thorough_extras(ctx, rep, a.pid)
         return rep.finalize()
     except AnalysisBroken as e:
         print("ANALYSIS-BROKEN: %s" % e)
